@@ -136,6 +136,9 @@ pub fn run(ctx: &Ctx) {
     ctx.set("deep_chains", json!({"max_depth": 120, "documents": chains.len()}));
     ctx.set("evaluations", json!(total_evals));
     ctx.set("distinct_nontrivial", json!(all_distinct.len()));
+    // adversarial names before the (long) searches: a wall budget that runs out cuts the deepest level of a
+    // search, not this part
+    names_part(ctx);
     let searches: Vec<(usize, usize)> = ctx.tier.pick(vec![(2, 4), (3, 1)], vec![(2, 8), (3, 2)]);
     for (aw, depth) in searches {
         let alphabet = materialise(history_cfg(aw));
@@ -164,7 +167,6 @@ pub fn run(ctx: &Ctx) {
         let stats = search.run();
         record_bfs(ctx, &format!("extend over documents of weight <= {}", aw), &stats, events.len(), depth);
     }
-    names_part(ctx);
     ctx.set(
         "rule",
         json!("(a) every document of the single-document space (text, CDATA, whitespace and comments as items); (b) breadth-first search over extend_struct, every transition's rendering is checked against *every* document of its history; (c) adversarial names: every tree shape up to the bound with names from every small subset of the adversarial pool that satisfies the side condition. Oracle: each attribute/child of each occurrence has a field bound to its XML name in the struct of its position, non-Option fields are present, non-Vec children occur at most once, character data only where there is a text field or a String-typed field. distinct_nontrivial = distinct reference schemas among the single documents"),
@@ -205,7 +207,6 @@ pub fn replay(ctx: &Ctx, case: &Value) {
 fn names_part(ctx: &Ctx) {
     use super::names::*;
     let pool = pool(&[]);
-    let k = ctx.tier.pick(2, 3);
     let params = ctx.tier.pick(
         TreeParams { min_nodes: 1, max_nodes: 3, max_decorated: 1, root_from_subset: false, shard: (0, 1) },
         TreeParams { min_nodes: 1, max_nodes: 3, max_decorated: 1, root_from_subset: false, shard: (0, 1) },
@@ -241,6 +242,9 @@ fn names_part(ctx: &Ctx) {
         );
         ctx.add("evaluations", res.accs.iter().sum::<u64>());
     }
+    // the thorough tier completes the 2-subsets (all the quick tier covers) before it starts on the
+    // 3-subsets, which the wall budget may cut
+    for k in ctx.tier.pick(vec![2usize], vec![2, 3]) {
     let subs = subsets(pool.len(), k);
     let res = par_for(
         subs.len() as u64,
@@ -301,7 +305,7 @@ fn names_part(ctx: &Ctx) {
         distinct.extend(a.2);
     }
     ctx.add("evaluations", evals);
-    ctx.set(
+    ctx.push(
         "adversarial_names",
         json!({"pool": pool.len(), "subset_size": k, "subsets": subs.len(), "subsets_done": res.processed,
                "tree_nodes_max": params.max_nodes, "decorated_nodes_max": params.max_decorated,
@@ -310,6 +314,7 @@ fn names_part(ctx: &Ctx) {
     );
     if !res.complete {
         ctx.set("exhaustive", json!(false));
-        ctx.set("cap_names", json!(format!("wall budget: {} of {} name subsets", res.processed, subs.len())));
+        ctx.push("caps", json!(format!("adversarial names: wall budget, {} of {} {}-subsets", res.processed, subs.len(), k)));
+    }
     }
 }
